@@ -1,7 +1,7 @@
 (* C38 — main theorems about callbacks and timeouts, for every program and every fuel. *)
 From Coq Require Import List ZArith Arith Bool Lia Permutation Sorted.
 Import ListNotations.
-From TV Require Import C38.Model C38.Spec C38.HeapProofs C38.Steps C38.Invariants C38.LogProofs C38.FutProofs.
+From TV Require Import C38.Model C38.Spec C38.HeapProofs C38.Steps C38.Invariants C38.LogProofs C38.FutProofs C38.SyncProofs.
 Local Open Scope Z_scope.
 
 Lemma arrivals_run_order_id : forall l, arrivals_run_order l = l.
@@ -181,4 +181,62 @@ Proof.
   unfold sync_result_of. rewrite C. destruct e; [| |congruence];
     destruct (fget (futs s) f) as [cbs|[v|]|[y| |]|]; auto; try contradiction;
     destruct (tcalled s); auto.
+Qed.
+
+(* ---------- run_sync, in full ---------- *)
+Theorem run_sync_result b tm fuel s e :
+  run_loop fuel (init_sync b tm) = (s, e) -> e <> OutOfFuel ->
+  let r := sync_result_of s e in
+  exists x, In (EEnd 0 x) (ctr s) /\ (forall x', In (EEnd 0 x') (ctr s) -> x' = x) /\
+    match x with
+    | EndNone => r = RRet None
+    | EndVal => r = RExc XBadYield
+    | EndRaise y => r = RExc y
+    | EndFut f =>
+        (exists v, r = RRet (Some v) /\ In (ERs f 0 v) (ctr s)) \/
+        (exists y, r = RExc (XUser y) /\ In (ERs f 1 y) (ctr s)) \/
+        (r = RTimeout /\ tm <> None /\ In (ERs f 2 0) (ctr s)) \/
+        (r = RStopped /\ e = Stopped /\ In (ERs f 2 0) (ctr s)) \/
+        (r = RIdle /\ e = Idle /\ tm = None /\ ~ resolved f (ctr s))
+    end.
+Proof.
+  intros HR NE r.
+  pose proof (future_state_matches_trace (ISync b tm) _ fuel s e eq_refl HR NE) as W.
+  destruct (run_sync_final b tm fuel s e HR NE) as (s1 & J & NC & T & F & C & TC & HI & HS).
+  assert (CT : ctr s1 = ctr s) by (apply ctr_eq; auto).
+  destruct J. rewrite CT in *.
+  destruct (cell s1) as [c|] eqn:CC; [|congruence]. clear NC.
+  pose proof (j_cell c eq_refl) as CM.
+  assert (NIDLE : e <> Idle \/ e = Idle) by (destruct e; auto; left; discriminate).
+  destruct c as [r0|f]; simpl in CM.
+  - destruct CM as (x & HIn & FR). exists x. split; auto. split; [intros x' H'; eapply j_endz; eauto|].
+    unfold r, sync_result_of. rewrite <- C. destruct e; [| |congruence];
+      destruct x as [| |f|y]; simpl in FR; inversion FR; subst; reflexivity.
+  - exists (EndFut f). split; auto. split; [intros x' H'; eapply j_endz; eauto|].
+    specialize (W f). unfold r, sync_result_of. rewrite <- C, <- TC.
+    assert (CPi : (exists cbs, fget (futs s) f = FPending cbs) -> cellpend s1).
+    { intros (cbs & G). exists f, cbs. split; auto. rewrite F. auto. }
+    destruct (fget (futs s) f) as [cbs|[v|]|[y| |]|] eqn:G; try contradiction.
+    + (* never resolved *)
+      assert (CP : cellpend s1) by (apply CPi; eauto).
+      destruct (tcalled s1) eqn:TCs; [exfalso; eapply j_tc; eauto|].
+      destruct e; [| |congruence].
+      * right; right; right; right. split; auto. split; auto. split; auto.
+        destruct (HI eq_refl) as (R0 & H0 & S0).
+        destruct tm as [t|]; auto. destruct j_to as [(w & Hw)|Hw]; [|congruence].
+        unfold allh in Hw. rewrite R0, H0 in Hw. destruct Hw.
+      * exfalso. destruct (j_stopping (HS eq_refl)); [congruence|contradiction].
+    + left. exists v. destruct e; [| |congruence]; auto.
+    + right; left. exists y. destruct e; [| |congruence]; auto.
+    + (* cancelled *)
+      assert (NCP : ~ cellpend s1).
+      { intros (g & cb & A & B). rewrite CC in A. inversion A; subst g. rewrite F in B. congruence. }
+      destruct (tcalled s1) eqn:TCs.
+      * right; right; left. split; [destruct e; [| |congruence]; reflexivity|]. split; auto.
+        destruct tm; [discriminate|]. destruct j_to. congruence.
+      * destruct e; [| |congruence].
+        -- exfalso. destruct (HI eq_refl) as (R0 & H0 & S0).
+           assert (NN : Some (CUser f) <> None) by discriminate.
+           destruct (j_liveb NN NCP) as [H|H]; [rewrite R0 in H; destruct H|congruence].
+        -- right; right; right; left. auto.
 Qed.
